@@ -142,6 +142,31 @@ def _exit(run, P):
             and isinstance(lp.target, ast.Tuple) \
             and [dotted(a_) for a_ in cb[0].value.args] == [dotted(t_) for t_ in lp.target.elts]
         ok = after and it_ok and body_ok and tbl_ok
+        if after and it_ok and tbl_ok and not body_ok and len(cb) == 1 and isinstance(cb[0], ast.If):
+            # a filtered release loop.  What may be skipped is what the body of the phase has
+            # certainly released already; a filter that goes by a record the release helper
+            # itself keeps (written where it emits the release) may be right - whether it is,
+            # is not read.  A filter computed from anything else is not what was released.
+            rel = P.func(f"{GEN}.emit_deinit_for_last_usage_of_vars")
+            kept = {t_.value.attr for s_ in ast.walk(rel.node) if isinstance(s_, ast.Assign)
+                    for t_ in s_.targets if isinstance(t_, ast.Subscript)
+                    and isinstance(t_.value, ast.Attribute) and dotted(t_.value.value) == "self"} \
+                if rel is not None else set()
+            names = {x.id for x in ast.walk(cb[0].test) if isinstance(x, ast.Name)}
+            srcs = set()
+            for _ in range(4):
+                for s_ in ast.walk(f.node):
+                    if isinstance(s_, (ast.Assign, ast.AugAssign)) and any(
+                            isinstance(t_, ast.Name) and t_.id in names
+                            for t_ in (s_.targets if isinstance(s_, ast.Assign) else [s_.target])):
+                        for y in ast.walk(s_.value):
+                            if isinstance(y, ast.Name):
+                                names.add(y.id)
+                            if isinstance(y, ast.Attribute) and dotted(y.value) == "self":
+                                srcs.add(y.attr)
+            if kept and srcs & kept:
+                raise AnalysisError(f"lower_function: the release loop after the exit label is filtered by "
+                                    f"a record of the release helper ({sorted(srcs & kept)}); not decided")
     run.ob("C12.exit", f, site, ok,
            construct="after the exit label: for every (identifier, kind) of the phase's "
                      "symbol table: emit_variable_deinit, no filter",
@@ -621,6 +646,17 @@ def _lastuse(run, P):
                     and any(has(f"self.emit_variable_deinit(V_var, ANY)", s_,
                                 {"V_var": m2_[1]["V_var"]}) for s_ in n_.body):
                 ok = True
+    if not ok:
+        # the variables ending with this statement looked up in an index keyed by the
+        # statement (built from the last-use table, here or elsewhere): not decided
+        by_stmt = [x for x in ast.walk(d.node)
+                   if (isinstance(x, ast.Subscript) and f"{inst}.id" in norm(x.slice)
+                       and not (dotted(x.value) or "").endswith("last_used_stmt_table"))
+                   or (isinstance(x, ast.Call) and isinstance(x.func, ast.Attribute) and x.func.attr == "get"
+                       and x.args and f"{inst}.id" in norm(x.args[0]))]
+        if by_stmt:
+            raise AnalysisError(f"{d.qualname}: the variables to release are looked up by statement in "
+                                f"{norm(by_stmt[0], 60)}; not decided")
     run.ob("C12.lastuse", d, d.node, ok,
            construct="release only when this statement is the last use and the variable "
                      "is not persistent",
